@@ -11,7 +11,7 @@ S->C  : DTCWTForward on identity image batches with random integer filter sets (
         The real 1-D routines (column and row variants) against TLC's Ref entries; all named filter pairs
         numerically against dtcwt.Transform2d.forward.
 """
-from .. import dtlib, dtchecks, stagetrace
+from .. import dtlib, dtchecks, stagetrace, suitetrace
 from ..findings import Findings
 
 LEVEL = "model_checking"
@@ -31,6 +31,8 @@ def run(rep):
     dtchecks.forward_replay(rep, fnd, tab, res2.records, "C03")
     dtchecks.numeric_forward(rep, fnd, "C03", rep.tier)
     stagetrace.validate_dtcwt(rep, "C03", rep.tier, "DTCWTForward")
+    if rep.tier == "thorough":       # the DTCWT test file is slow under the recorder: thorough tier only
+        suitetrace.validate_suite(rep, "C03", "DTCWTForward")
     rep.assumptions += ["polarity premise sum(h0a*h0b) > 0 > sum(h1a*h1b): identity of the shipped tables (C18)",
                         "bounded sizes (coverage.tlc_runs); numeric comparison covers the named filter pairs"]
 
